@@ -180,3 +180,35 @@ func VerifC15_CloseWhenReceiverCloseFails() {
 	verif_Quiesce()
 	verif_Assert(hooksAfterClose == 0, "no block is reported after Close returned")
 }
+
+// C15 (Close returns only when all syncs have ended — for EVERY caller): an
+// explicit sync is held up by a stalled publisher while two callers close the
+// subscriber one after the other; neither returns before the sync has ended.
+func VerifC15_EveryCloseCallerWaits() {
+	chain := c01chain(2)
+	v := newLiveSub(chain, 0)
+	v.sy.gate = make(chan struct{})
+	syncDone := make(chan error, 1)
+	go func() {
+		_, err := v.s.SyncAdChain(context.Background(), v.peer)
+		syncDone <- err
+	}()
+	verif_Quiesce() // the explicit sync is in flight
+	verif_Assume(v.sy.active == 1)
+	ret := make(chan int, 2)
+	go func() { _ = v.s.Close(); ret <- 1 }()
+	verif_Quiesce()
+	go func() { _ = v.s.Close(); ret <- 2 }()
+	verif_Quiesce()
+	select {
+	case <-ret:
+		verif_Assert(v.sy.active == 0, "no Close caller returns while an explicit sync is still running")
+	default:
+	}
+	verif_Reach("both closing")
+	close(v.sy.gate) // the publisher answers: the sync finishes
+	<-ret
+	<-ret
+	verif_Assert(v.sy.active == 0 && <-syncDone == nil, "the running explicit sync was allowed to finish")
+	verif_Assert(v.s.Close() == nil, "Close can be repeated")
+}
